@@ -4,6 +4,7 @@ import (
 	"fmt"
 	"go/token"
 	"go/types"
+	"regexp"
 	"strings"
 
 	"golang.org/x/tools/go/ssa"
@@ -132,9 +133,10 @@ func mtimeAtoms(p provSet) []string {
 }
 
 func checkC07(c *Ctx, r *Report) {
-	r.Rules = []string{"T1 single clock gate", "T1 gate fed from configured/entry mtime", "T1 entry mtime defaulting", "T1 host-name gate", "T1 no other nondeterminism source", "T2 order-insensitive map iteration", "T4 no non-constant compressor header field", "T5 no goroutine", "fixture (positive examples)", "T6-no-carried-state no package-level variable is written on a packaging path"}
+	r.Rules = []string{"T1 single clock gate", "T1 gate fed from configured/entry mtime", "T1 entry mtime defaulting", "T1 host-name gate", "T1 no other nondeterminism source", "T2 order-insensitive map iteration", "T4 no non-constant compressor header field", "T5 no goroutine", "fixture (positive examples)", "T6-no-carried-state no package-level variable is written on a packaging path", "T7-template-zone changelog templates of nfpm's own use no local-zone date function", "fresh-G4/G4-pool buffers under archive writers start empty (imported from C11)"}
 	r.Explanation = "Who-may-call and effect rules over go/ssa on all non-test module code: the wall clock is read only inside internal/modtime.Get and every call of it passes the configured package mtime or the entry's mtime first (so a configured mtime makes the clock fallback dead); prepared entries get the package mtime when they have none; os.Hostname is reachable only when no build host is configured (decided by abstract evaluation with the field fixed); no other nondeterminism source (environment, math/rand, pid, cwd, CPU count, user) is called from packaging code outside the enumerated gates; every map iteration is order-insensitive by an enumerated idiom or sorted; compressor header fields get no non-constant value; module code starts no goroutine. Each zero-count rule is run against a positive fixture on every run. These are necessary conditions for reproducible output; byte equality of two runs is not computed."
 	r.Explanation += " (T6) no function on a packaging path writes a package-level variable, directly or through sync.Map: nothing computed for one build can reach the next build in the same process."
+	r.Explanation += " (T7-template-zone) a constant template text handed to the changelog renderer contains none of sprig's local-zone date functions. (fresh-G4) imported from C11."
 	r.Assumptions = []string{
 		"pgzip, zstd, xz and compress/gzip output does not depend on GOMAXPROCS, scheduling or the clock when no header field is set (library property)",
 		"text/template visits map keys in sorted order (deb/ipk custom fields)",
@@ -189,6 +191,10 @@ func checkC07(c *Ctx, r *Report) {
 	r.Floor("T1-clock", clockInGate, 1)
 
 	// ---- T2: the final order of the plan is total (rule of C05) ----
+	// buffers under the archive writers start empty (rule of C11): a pooled
+	// buffer that can come back dirty makes a rebuild in the same process
+	// differ from a build in a fresh one
+	r.Floor("fresh-G4", importRules(c, r, checkC11, "fresh-", []string{"G4", "G4-pool"}, nil), 8)
 	r.Floor("order-D6-plain", importRules(c, r, checkC05, "order-", []string{"D6-plain"}, nil), 1)
 
 	// ---- T1-fileinfo: headers are not built from a stat of the source ----
@@ -210,6 +216,7 @@ func checkC07(c *Ctx, r *Report) {
 
 	// ---- T6 no state carried from one build to the next ----
 	checkNoCarriedState(c, r, "T6-no-carried-state")
+	checkChangelogTemplates(c, r)
 
 	// ---- T1 SOURCE_DATE_EPOCH gate: no value-dependent handling ----
 	for _, fn := range fns {
@@ -435,8 +442,15 @@ func checkFixture(c *Ctx, r *Report, kinds []string) {
 // scanGlobalWrites: stores to / map updates through package-level variables.
 func scanGlobalWrites(c *Ctx, fns []*ssa.Function) []scanHit {
 	var hits []scanHit
+	once := onceInitFuncs(c)
 	for _, fn := range fns {
 		if fn.Name() == "init" || strings.HasPrefix(fn.Name(), "init#") {
+			continue
+		}
+		if once[fn] {
+			// one-time initialisation that cannot depend on the caller: the
+			// function captures nothing, takes nothing, and runs under a
+			// package-level sync.Once (which orders it before every reader)
 			continue
 		}
 		forEachInstr(fn, func(in ssa.Instruction) {
@@ -609,4 +623,82 @@ func scanSyncMapWrites(fns []*ssa.Function) []scanHit {
 		})
 	}
 	return hits
+}
+
+// onceInitFuncs: anonymous functions without free variables and parameters
+// that are handed to Do of a package-level sync.Once. What they store into
+// package-level variables is the same whichever operation comes first.
+func onceInitFuncs(c *Ctx) map[*ssa.Function]bool {
+	if c.onceInit != nil {
+		return c.onceInit
+	}
+	c.onceInit = map[*ssa.Function]bool{}
+	for _, fn := range c.ModFuncs {
+		forEachInstr(fn, func(in ssa.Instruction) {
+			ci, ok := in.(ssa.CallInstruction)
+			if !ok {
+				return
+			}
+			o := calleeObj(ci)
+			if o == nil || o.Name() != "Do" || o.Pkg() == nil || o.Pkg().Path() != "sync" {
+				return
+			}
+			sig, _ := o.Type().(*types.Signature)
+			if sig == nil || sig.Recv() == nil || !isNamed(derefType(sig.Recv().Type()), "sync", "Once") {
+				return
+			}
+			args := ci.Common().Args
+			if len(args) < 2 {
+				return
+			}
+			if _, isG := args[0].(*ssa.Global); !isG {
+				return
+			}
+			var f *ssa.Function
+			switch x := args[len(args)-1].(type) {
+			case *ssa.Function:
+				f = x
+			case *ssa.MakeClosure:
+				if len(x.Bindings) == 0 {
+					f, _ = x.Fn.(*ssa.Function)
+				}
+			}
+			if f != nil && f.Parent() != nil && len(f.FreeVars) == 0 && len(f.Params) == 0 {
+				c.onceInit[f] = true
+			}
+		})
+	}
+	return c.onceInit
+}
+
+// checkChangelogTemplates (T7-template-zone): changelog entries carry dates. The
+// dependency's own templates format them in UTC; a template text of nfpm's own
+// that is handed to the changelog renderer must not use sprig's date functions
+// that format in the machine's local zone (date, htmlDate, now, ago, toDate).
+func checkChangelogTemplates(c *Ctx, r *Report) {
+	zoneDependent := regexp.MustCompile(`(^|[\s(|{])(date|htmlDate|now|ago|toDate|dateModify|date_modify)([\s)}]|$)`)
+	n := 0
+	for _, fn := range c.ModFuncs {
+		forEachInstr(fn, func(in ssa.Instruction) {
+			call, ok := in.(*ssa.Call)
+			if !ok {
+				return
+			}
+			o := calleeObj(call)
+			if o == nil || o.Pkg() == nil || !strings.HasSuffix(o.Pkg().Path(), "goreleaser/chglog") || !strings.HasPrefix(o.Name(), "LoadTemplate") || len(call.Call.Args) == 0 {
+				return
+			}
+			n++
+			construct := fmt.Sprintf("changelog template#%d loaded in %s formats dates zone-independently", n, c.funcKey(fn))
+			k, isK := call.Call.Args[0].(*ssa.Const)
+			if !isK || !isConstString(k) {
+				r.Fail("T7-template-zone", construct, c.instrPos(call), "the template text is not a constant: which date functions it uses cannot be decided")
+				return
+			}
+			m := zoneDependent.FindString(constString(k))
+			r.Check(m == "", "T7-template-zone", construct, c.instrPos(call),
+				"the template uses "+strings.TrimSpace(m)+", which formats in the machine's local time zone: the same changelog entry renders differently on a build host in another zone (the dependency's templates use date_in_zone ... \"UTC\")")
+		})
+	}
+	r.Count("own_changelog_templates", n)
 }
